@@ -479,6 +479,52 @@ pub fn volume(thorough: bool) -> Vec<Program> {
     out
 }
 
+/// panic-point enumerator for the arena's own callback-taking methods (C16): every callback index
+pub fn apanics(thorough: bool) -> Vec<Program> {
+    use Op::*;
+    let mut out = Vec::new();
+    let cands: Vec<(Op, i64)> = vec![
+        (Val { ty: 4, with: true, fallible: false }, 1),
+        (Val { ty: 9, with: true, fallible: true }, 1),
+        (SliceClone { ty: 3, len: 4, fallible: false }, 4),
+        (SliceClone { ty: 4, len: 3, fallible: true }, 3),
+        (Fill { ty: 3, len: 5, how: 0, fallible: false }, 5),
+        (Fill { ty: 4, len: 4, how: 3, fallible: true }, 4),
+        (Fill { ty: 1, len: 6, how: 2, fallible: false }, 6),
+        (Fill { ty: 4, len: 100, how: 0, fallible: true }, 100),
+        (TryWith { ty: 4, ety: 2, ok: true, clos: Clos::Nothing, fallible: false }, 1),
+        (TryWith { ty: 10, ety: 2, ok: false, clos: Clos::Nothing, fallible: true }, 1),
+        (TryFill { ty: 3, len: 6, fail_at: -1, iter: false }, 6),
+        (TryFill { ty: 4, len: 5, fail_at: 4, iter: true }, 5),
+    ];
+    for &ma in &MAS {
+        for (op, ncb) in &cands {
+            let mut ks: Vec<i64> = (0..(*ncb).min(4)).collect();
+            ks.push(*ncb - 1);
+            ks.dedup();
+            for k in ks {
+                for rem in [448usize, 40, 3] {
+                    if !thorough && (rem + ma + k as usize) % 2 == 1 {
+                        continue;
+                    }
+                    let mut ops = vec![New { cap: None, fallible: false }, l(24, 8)];
+                    if rem < 448 {
+                        ops.push(l(448 - 24 - rem, 1));
+                    }
+                    ops.push(PanicAtCb { n: k });
+                    ops.push(op.clone());
+                    ops.push(op.clone());
+                    ops.push(Iter);
+                    ops.push(Reset);
+                    ops.push(op.clone());
+                    out.push(Program { ma, ops, tag: "apanics".into() });
+                }
+            }
+        }
+    }
+    out
+}
+
 pub fn by_name(name: &str, tier: &str, seed: u64) -> Vec<Program> {
     let thorough = tier == "thorough";
     match name {
@@ -499,6 +545,7 @@ pub fn by_name(name: &str, tier: &str, seed: u64) -> Vec<Program> {
         "limit" => limit(thorough),
         "trywith" => trywith(thorough),
         "volume" => volume(thorough),
+        "apanics" => apanics(thorough),
         "random" => random(if thorough { 4000 } else { 300 }, if thorough { 200 } else { 120 }, seed),
         _ => panic!("unknown generator {name}"),
     }
